@@ -15,13 +15,30 @@ embedded at chosen positions.  Token classes:
 text (everything up to the matching end tag is content, whatever it looks like); the other elements
 contain normal markup and the generator never puts the element's own end tag inside them (not in a
 comment, not in a string of a nested script), never nests iframe/noscript in themselves and never
-leaves a removable element unclosed, so that the raw-text reading (iframe, noscript with scripting)
-and the normal-markup reading agree on where the element ends.  Constructs deliberately NOT
-generated because browsers / the standard library / XHTML disagree about them: unclosed removable
-element or comment at end of input, ``</script>`` inside a script string, ``</script foo>`` (end tag
+leaves a removable element unclosed at the end of the input, so that the raw-text reading (iframe,
+noscript with scripting) and the normal-markup reading agree on where the element ends.  Constructs
+deliberately NOT generated because browsers / the standard library / XHTML disagree about them:
+unclosed removable element at end of input, ``</script>`` inside a script string, ``</script foo>`` (end tag
 with attributes: not recognised by CPython 3.12.1's html.parser in raw-text mode), ``<!-->``,
 ``--!>``, ``-- >``, ``<script src=x/>`` (unquoted value swallows the slash), RCDATA elements
-(title/textarea), mis-nested removable elements across each other.
+(title/textarea), an unclosed start tag of another removable element inside object/applet (a
+browser ignores ``</object>`` while an applet is open and an unclosed iframe swallows the rest).
+
+Tags of OTHER removable elements inside a removed element are generated where every reading agrees:
+a stray end tag of a different removable element (``<noscript>a </iframe> b</noscript>``: ignored by
+the tree builder, text in the raw-text reading) inside noscript/iframe/object/applet, and an unclosed
+start tag of a different removable element inside iframe/noscript, whose content is raw text up to
+their own end tag.  A document may END inside an unterminated comment / declaration / processing
+instruction (a truncated mail body): HTML tokenisation makes everything up to the end of input the
+comment, so its tokens are class r and nothing visible follows.
+
+Order and separation ("takes nothing else with it"): every construct is bracketed by the BEGIN/END
+markers, ``render(strip=True)`` gives the same document with every removable construct deleted.  The
+check extracts that reference document too and demands that the visible tokens of the real document
+come out in the same order, in the same place (full text / table cell) and not glued where the
+reference keeps them apart.  The ``ctx-*`` positions put the construct behind an already closed
+inline or block child of the same parent and directly in front of character data, the place where a
+tree builder has to decide to which node the following text belongs.
 
 Feature isolation: every body is either clean or carries exactly ONE risky construct instance; the
 risky construct is an ``Alt(risky, benign)`` segment, so the control twin is the same document
@@ -45,6 +62,9 @@ RISKY = (
     "bare-void-embed",
     "stray-endtag-in-removed-element",
     "unclosed-inner-tag-in-removed-element",
+    "stray-removable-endtag-in-removed-element",
+    "unclosed-removable-starttag-in-removed-element",
+    "unterminated-trailing-construct",
 )
 
 VOID_CHILDREN = (
@@ -57,11 +77,24 @@ VOID_CHILDREN = (
 STRAY_END = ("</b>", "</i>", "</span>", "</div>", "</p>", "</a>", "</li>", "</td>", "</em>", "</font>", "</center>", "</B>")
 UNCLOSED_OPEN = ("<p>", "<li>", "<div>", "<b>", "<span>", '<a href="e.html">', '<font color="red">', "<center>", "<P>", "<em>", "<td>")
 
+# tags of OTHER removable elements inside a removed element (the element's own name is skipped when one is drawn)
+STRAY_REMOVABLE_END = ("</iframe>", "</object>", "</noscript>", "</applet>", "</script>", "</style>", "</embed>", "</IFRAME>",
+                       "</Object>", "</noscript >", "</SCRIPT>", "</applet\n>")
+UNCLOSED_REMOVABLE_OPEN = ('<object data="m.swf">', '<iframe src="f.html">', "<noscript>", '<applet code="A.class">', "<OBJECT>",
+                           '<object data="m.swf" title="a>b">', "<Applet>", "<iframe>", '<noscript class="n">')
+UNCLOSED_REMOVABLE_PARENTS = ("iframe", "noscript")      # content is raw text up to the element's own end tag
+TAIL_KINDS = ("comment", "comment-tight", "comment-tags", "comment-gt", "comment-removable", "comment-conditional", "comment-multiline",
+              "decl", "doctype-like", "pi")
+TRUNC_KINDS = ("after-document", "closers-cut", "mid-paragraph", "mid-div")
+
 RAW_KINDS = ("text", "pseudo-markup", "pseudo-endtag", "pseudo-removable", "comment-wrapped", "cdata-wrapped", "ltgt", "multiline", "empty")
 NORMAL_KINDS = ("text", "balanced", "void-selfclosed", "nested-same", "nested-other", "nested-rawtext", "nested-embed",
                 "misnested-inner", "comment", "cdata", "attr-gt", "selfclosed-nonvoid", "entities", "empty")
 RISKY_KINDS = {"void-child-in-removed-element": "void-bare", "stray-endtag-in-removed-element": "stray-endtag",
-               "unclosed-inner-tag-in-removed-element": "unclosed-inner"}
+               "unclosed-inner-tag-in-removed-element": "unclosed-inner",
+               "stray-removable-endtag-in-removed-element": "stray-removable-endtag",
+               "unclosed-removable-starttag-in-removed-element": "unclosed-removable"}
+_RISKY_ONLY_KINDS = ("void-bare", "stray-endtag", "unclosed-inner", "embed-bare", "stray-removable-endtag", "unclosed-removable")
 EMBED_KINDS = ("embed-selfclosed", "embed-paired")
 COMMENT_KINDS = ("plain", "tight", "multiline", "with-tags", "with-gt", "with-dashes", "with-removable", "conditional",
                  "empty", "with-quotes", "pi", "decl", "doctype-like")
@@ -69,9 +102,10 @@ ATTR_KINDS = ("none", "plain", "gt-in-value", "quotes", "unquoted", "endtag-in-v
 CASE_KINDS = ("lower", "upper", "mixed")
 CLOSE_KINDS = ("plain", "ws", "nl")
 
-TABLE_POSITIONS = ("td-mid", "td-last", "td-only", "th", "tr-between")
+TABLE_POSITIONS = ("td-mid", "td-last", "td-only", "th", "tr-between", "ctx-td-inline")
+CONTEXT_POSITIONS = ("ctx-p-inline", "ctx-p-glued", "ctx-div-block", "ctx-li-link", "ctx-body-text", "ctx-span-void", "ctx-bq-blocks")
 NONTABLE_POSITIONS = ("body-level", "p-inline", "p-glued", "p-start", "p-end", "div", "div-blocks", "li", "ol-between",
-                      "heading", "span", "a-link", "blockquote", "pre", "doc-start", "doc-end", "nested-divs", "head")
+                      "heading", "span", "a-link", "blockquote", "pre", "doc-start", "doc-end", "nested-divs", "head") + CONTEXT_POSITIONS
 POSITIONS = NONTABLE_POSITIONS + TABLE_POSITIONS
 WRAPPERS = ("full", "fragment", "body-only", "xhtml")
 
@@ -83,6 +117,20 @@ class Alt:
     def __init__(self, risky: str, benign: str):
         self.risky = risky
         self.benign = benign
+
+
+class _Mark:
+    """BEGIN / END of a removable construct in the segment list (render(strip=True) drops what is in between)."""
+    __slots__ = ("name",)
+
+    def __init__(self, name: str):
+        self.name = name
+
+    def __repr__(self):
+        return self.name
+
+
+BEGIN, END = _Mark("BEGIN"), _Mark("END")
 
 
 def kinds_for(name: str) -> tuple:
@@ -99,7 +147,13 @@ def kinds_for(name: str) -> tuple:
 
 
 def risky_names(feature: str) -> tuple:
-    return ("embed",) if feature == "bare-void-embed" else NORMAL
+    if feature == "bare-void-embed":
+        return ("embed",)
+    if feature == "unclosed-removable-starttag-in-removed-element":
+        return UNCLOSED_REMOVABLE_PARENTS
+    if feature == "unterminated-trailing-construct":
+        return ()               # not a construct at a position: the document's tail (make_body)
+    return NORMAL
 
 
 class Body:
@@ -111,11 +165,20 @@ class Body:
         self.wrapper = "fragment"
         self.constructs: list[dict] = []
         self.epub_only = False
+        self.want_ref = False       # always compare with the reference document (else: a seeded share, see checks/c17.py)
 
-    def render(self, benign: bool = False) -> str:
+    def render(self, benign: bool = False, strip: bool = False) -> str:
+        """The document; ``benign``: control twin; ``strip``: every removable construct deleted (reference)."""
         out = []
+        depth = 0
         for s in self.segments:
-            if isinstance(s, Alt):
+            if s is BEGIN:
+                depth += 1
+            elif s is END:
+                depth -= 1
+            elif strip and depth:
+                continue
+            elif isinstance(s, Alt):
                 out.append(s.benign if benign else s.risky)
             else:
                 out.append(s)
@@ -254,6 +317,18 @@ def _normal_content(b: _B, name: str, kind: str, variant: int = 0) -> list:
         tagname = re.match(r"<([a-zA-Z]+)", o).group(1)
         tok = r()
         return [r() + " ", Alt(f"{o}{tok}", f"{o}{tok}</{tagname}>")]
+    if kind == "stray-removable-endtag":
+        pool = [e for e in STRAY_REMOVABLE_END if re.sub(r"[^a-z]", "", e.lower()) != name]
+        e = pool[variant % len(pool)]
+        other = re.sub(r"[^a-zA-Z]", "", e)
+        return [r() + " ", Alt(e, f"<{other}>{e}"), " " + r()]
+    if kind == "unclosed-removable":
+        assert name in UNCLOSED_REMOVABLE_PARENTS
+        pool = [o for o in UNCLOSED_REMOVABLE_OPEN if re.match(r"<([a-zA-Z]+)", o).group(1).lower() != name]
+        o = pool[variant % len(pool)]
+        tagname = re.match(r"<([a-zA-Z]+)", o).group(1)
+        tok = r()
+        return [r() + " ", Alt(f"{o}{tok}", f"{o}{tok}</{tagname}>")]
     if kind == "misnested-inner":
         return [f"<b><i>{r()}</b></i> <p><span>{r()}</p></span> <div><a href=\"x\">{r()}</div></a>"]
     if kind == "comment":
@@ -341,7 +416,7 @@ def slot(b: _B, position: str, spec: dict) -> tuple[list, list]:
 
     def X():
         b.seen = True
-        return construct(b, spec)
+        return [BEGIN] + construct(b, spec) + [END]
 
     b.f(f"pos:{position}")
     if position == "head":
@@ -382,6 +457,23 @@ def slot(b: _B, position: str, spec: dict) -> tuple[list, list]:
         return [], [f"<p>{v()}</p>"] + X()
     if position == "nested-divs":
         return [], [f"<div><div><section>{v()} "] + X() + [f" {v()}</section></div>{v()}</div>"]
+    # ctx-*: an already closed child of the same parent, the construct, then character data before the next start tag
+    if position == "ctx-p-inline":
+        return [], [f"<p>{v()} <b>{v()}</b> {v()} "] + X() + [f" {v()} <i>{v()}</i> {v()}</p>"]
+    if position == "ctx-p-glued":
+        return [], [f"<p>{v()} <em>{v()}</em>"] + X() + [f"{v()} <span>{v()}</span></p>"]
+    if position == "ctx-div-block":
+        return [], [f"<div><p>{v()}</p>"] + X() + [f"{v()}<p>{v()}</p></div>"]
+    if position == "ctx-li-link":
+        return [], [f'<ul><li>{v()}</li><li><a href="http://example.org/l">{v()}</a> '] + X() + [f" {v()}</li><li>{v()}</li></ul>"]
+    if position == "ctx-body-text":
+        return [], [f"<p>{v()}</p>\n"] + X() + [f" {v()}\n<p>{v()}</p>"]
+    if position == "ctx-span-void":
+        return [], [f'<p><span class="s">{v()}<br/>{v()} '] + X() + [f" {v()}</span> {v()}</p>"]
+    if position == "ctx-bq-blocks":
+        return [], [f"<blockquote><p>{v()}</p><p>{v()}</p> "] + X() + [f" {v()} <p>{v()}</p></blockquote>"]
+    if position == "ctx-td-inline":
+        return [], [f"<table><tr><td><b>{v()}</b> "] + X() + [f" {v()}</td><td>{v()}</td></tr><tr><td>{v()}</td><td>{v()}</td></tr></table><p>{v()}</p>"]
     if position == "td-mid":
         return [], [f"<table><tr><td>{v()} "] + X() + [f" {v()}</td><td>{v()}</td></tr><tr><td>{v()}</td><td>{v()}</td></tr></table><p>{v()}</p>"]
     if position == "td-last":
@@ -410,12 +502,41 @@ def _wrap(b: _B, wrapper: str, head: list, body: list) -> list:
     raise ValueError(wrapper)
 
 
+def _tail(b: _B, kind: str) -> list:
+    """A construct that is still open when the input ends (risky) / the same construct terminated (benign)."""
+    r = b.r
+    if kind == "comment":
+        return [f"<!-- {r()} {r()}", Alt("", " -->")]
+    if kind == "comment-tight":
+        return [f"<!--{r()}", Alt("", "-->")]
+    if kind == "comment-tags":
+        return [f"<!-- {r()} <b>{r()}</b> <p>{r()}</p> <br> {r()}\n", Alt("", "-->\n")]
+    if kind == "comment-gt":
+        return [f"<!-- a > {r()} -> {r()} -- {r()}", Alt("", " -->")]
+    if kind == "comment-removable":
+        return [f"<!-- <script>{r()}</script> <noscript>{r()}</noscript> {r()}", Alt("", "-->")]
+    if kind == "comment-conditional":
+        return [f"<!--[if lt IE 9]><p>{r()}</p>{r()}", Alt("", "<![endif]-->")]
+    if kind == "comment-multiline":
+        return [f"<!--\n  {r()}\n\n  {r()}\n", Alt("", "-->\n")]
+    if kind == "decl":
+        return [f"<!ELEMENT {r()} ({r()})", Alt("", ">")]
+    if kind == "doctype-like":
+        return [f"<!{r()} {r()}", Alt("", ">")]
+    if kind == "pi":
+        return [f"<?php echo \"{r()}\"; {r()} ", Alt("", "?>")]
+    raise ValueError(kind)
+
+
 def make_body(rng, specs: list[dict], *, wrapper: str | None = None, fillers: int | None = None,
-              risky: str | None = None) -> Body:
+              risky: str | None = None, tail_spec: dict | None = None) -> Body:
     """Build one body.  ``specs``: list of dicts with keys name, position (+ optional kind/attr/case/close/variant).
 
     If ``risky`` is set, exactly one spec must carry ``"risky": True``; its kind is forced to the risky form.
+    ``risky="unterminated-trailing-construct"`` is the exception: all specs are clean and the document ends in an
+    unterminated comment / declaration / PI (``tail_spec``: optional kind / trunc), the twin terminates it.
     """
+    tail_spec = tail_spec or {}
     b = _B(rng, rng.randrange(0, 90000))
     wrapper = wrapper or rng.choice(WRAPPERS)
     if any(s["position"] == "head" for s in specs) and wrapper == "body-only":
@@ -431,7 +552,7 @@ def make_body(rng, specs: list[dict], *, wrapper: str | None = None, fillers: in
     for s in ordered:
         s = dict(s)
         if s.pop("risky", False):
-            assert risky in RISKY
+            assert risky in RISKY and risky != "unterminated-trailing-construct"
             n_risky += 1
             assert s["position"] not in TABLE_POSITIONS
             if risky == "bare-void-embed":
@@ -442,7 +563,7 @@ def make_body(rng, specs: list[dict], *, wrapper: str | None = None, fillers: in
                 s["kind"] = RISKY_KINDS[risky]
         else:
             # clean constructs never use a risky kind
-            assert s.get("kind") not in ("void-bare", "stray-endtag", "unclosed-inner", "embed-bare")
+            assert s.get("kind") not in _RISKY_ONLY_KINDS
         if s["position"] != "head":
             for _ in range(rng.randint(0, fillers)):
                 body.append(_filler_fixed(b))
@@ -455,10 +576,27 @@ def make_body(rng, specs: list[dict], *, wrapper: str | None = None, fillers: in
     for _ in range(rng.randint(0, fillers)):
         body.append(_filler_fixed(b))
         body.append("\n")
+    trunc = None
+    if risky == "unterminated-trailing-construct":
+        n_risky += 1
+        trunc = tail_spec.get("trunc") or rng.choice(TRUNC_KINDS)
+        kind = tail_spec.get("kind") or rng.choice(TAIL_KINDS)
+        b.f(f"tail:{kind}", f"trunc:{trunc}")
+        if trunc == "mid-paragraph":            # the document breaks off inside its last paragraph
+            body.append(f"<p>{b.vis()} ")
+        elif trunc == "mid-div":
+            body.append(f"<div><p>{b.vis()}</p>{b.vis()}")
+        tail = [BEGIN] + _tail(b, kind) + [END]
     if risky:
         assert n_risky == 1
         b.body.risky = risky
-    b.body.segments = _wrap(b, wrapper, head, body)
+    segs = _wrap(b, wrapper, head, body)
+    if trunc:
+        if trunc != "after-document" and wrapper != "fragment":
+            assert segs[-1].startswith("\n</body>")
+            segs = segs[:-1]                    # the closing tags were cut off with the rest of the input
+        segs = segs + tail
+    b.body.segments = segs
     if any(s.get("kind") == "selfclosed-removable" for s in b.body.constructs):
         b.body.epub_only = True
     return b.body
@@ -501,7 +639,9 @@ def systematic_clean(rng):
     # 1. every construct name at every position
     for name in NAMES:
         for pos in POSITIONS:
-            yield make_body(rng, [{"name": name, "position": pos}])
+            b = make_body(rng, [{"name": name, "position": pos}])
+            b.want_ref = True
+            yield b
     # 2. every content kind of every name, twice (two attribute/case draws)
     for name in NAMES:
         for kind in kinds_for(name):
@@ -528,13 +668,24 @@ def systematic_epub_only(rng):
 
 
 def systematic_risky(rng):
+    for i, kind in enumerate(TAIL_KINDS):
+        for j, trunc in enumerate(TRUNC_KINDS):
+            k = (i + j) % 3
+            specs = [{"name": NAMES[(i + j + n) % len(NAMES)], "position": NONTABLE_POSITIONS[(3 * i + 5 * j + n) % len(NONTABLE_POSITIONS)]} for n in range(k)]
+            specs = [s for s in specs if s["position"] != "head"]
+            yield make_body(rng, specs, risky="unterminated-trailing-construct", tail_spec={"kind": kind, "trunc": trunc},
+                            fillers=None if specs else 2)
     for feature in RISKY:
-        for name in risky_names(feature):
+        names = risky_names(feature)
+        for k, name in enumerate(names):
             for i, pos in enumerate(NONTABLE_POSITIONS):
+                if len(names) > 2 and (i + k) % 2:      # four element names: every position with two of them
+                    continue
                 reps = 2 if feature == "bare-void-embed" else 1
+                step = 3 if "removable" in feature else 7       # coprime to the size of the feature's tag pool
                 for rep in range(reps):
                     yield make_body(rng, [{"name": name, "position": pos, "risky": True,
-                                           "variant": i * 7 + rep * 3 + NORMAL.index(name) if name in NORMAL else i + rep}],
+                                           "variant": i * step + rep * 3 + NORMAL.index(name) if name in NORMAL else i + rep}],
                                     risky=feature)
 
 
@@ -553,6 +704,9 @@ def random_risky(rng, n: int):
         k = rng.choice((0, 1, 1, 2))
         specs = [{"name": rng.choice(NAMES), "position": rng.choice(POSITIONS)} for _ in range(k)]
         if sum(1 for s in specs if s["position"] == "head") > 0:
+            continue
+        if feature == "unterminated-trailing-construct":
+            yield make_body(rng, specs, risky=feature, fillers=None if specs else 2)
             continue
         rs = {"name": rng.choice(risky_names(feature)), "position": rng.choice(NONTABLE_POSITIONS), "risky": True}
         specs.insert(rng.randint(0, len(specs)), rs)
